@@ -114,7 +114,8 @@ class Report:
                 seen_known.append((k, known[k]))
             else:
                 new.append(v)
-        os.makedirs(os.path.join(VERIF, "evidence"), exist_ok=True)
+        evdir = os.environ.get("VERIF_EVIDENCE_DIR") or os.path.join(VERIF, "evidence")      # mutation runs write elsewhere
+        os.makedirs(evdir, exist_ok=True)
         os.makedirs(os.path.join(VERIF, "replays"), exist_ok=True)
         cov = dict(self.cov)
         if not cov.get("samples"):
@@ -126,7 +127,7 @@ class Report:
         ev = {"property_id": self.prop, "tier": self.tier, "seed": seed(), "level": self.level,
               "coverage": jsonable(cov), "assumptions": self.assumptions,
               "wall_s": round(time.time() - self.t0, 2), "violations": len(new)}
-        with open(os.path.join(VERIF, "evidence", f"{self.prop}.json"), "w") as f:
+        with open(os.path.join(evdir, f"{self.prop}.json"), "w") as f:
             json.dump(ev, f, indent=1, sort_keys=True)
         for k, fnd in seen_known:
             print(f"KNOWN-FINDING: property={self.prop} {k}: {fnd.get('what', '')}")
